@@ -10,5 +10,5 @@ Extraction "model.ml"
   Byte.to_N Byte.of_N Bytes.b2n Bytes.n2b
   Header.hdr_read Header.hdr_put Header.encoded_len Header.box_size_of Header.box_data_size
   Header.with_u32_data_size Header.with_data_size Header.overwrite_size Header.hdr_wf Header.U32MAX
-  Box.parse_moov Box.put_nodes BoxLazy.nodes_encoded_len BoxOps.run_ops
+  Box.parse_moov Box.parse_boxes Box.parse_ftyp Box.put_node Box.put_nodes BoxLazy.nodes_encoded_len BoxOps.run_ops
   BoxEdit.edit_trak BoxEdit.puts_calc BoxEdit.lens_calc.
